@@ -482,7 +482,24 @@ func checkDartFileAssignment(w *World, r *Result) {
 	}
 	// the file variable is computed before the cache check
 	// Linker: GetOutput and OutputFiles read the same table
-	tt := w.Field("analysis", "Linker", "typeToOut")
+	// the table from named type to output file: the one field of Linker of type map[*types.Named]string (unexported,
+	// so it is found by its type rather than by its name)
+	var tt *types.Var
+	if st, ok := w.TypeOf("analysis", "Linker").Underlying().(*types.Struct); ok {
+		n := 0
+		for i := 0; i < st.NumFields(); i++ {
+			if st.Field(i).Type().String() == "map[*go/types.Named]string" {
+				tt = st.Field(i)
+				n++
+			}
+		}
+		if n != 1 {
+			tt = nil
+		}
+	}
+	if tt == nil {
+		Undecided("analysis.Linker has no single field of type map[*types.Named]string (the type-to-output-file table)")
+	}
 	for _, q := range []string{"analysis.(Linker).GetOutput", "analysis.(Linker).OutputFiles", "analysis.NewLinker"} {
 		fi := w.MustFunc(q)
 		uses := false
